@@ -193,3 +193,23 @@ package codegen
 //@   mode bv
 //@   tags C16
 //@   at isReserved assert [on-sanitized] arg0 == sanitized
+
+// ---- byte size of a type as the MSL writer uses it for padding and runtime-array lengths (C07, C04)
+//
+// WGSL SizeOf: scalar = width; vecN = N*width; matCxR = C * AlignOf(vecR) with
+// AlignOf(vec2) = 2w, AlignOf(vec3/vec4) = 4w; array<E,N> = N * stride;
+// struct = span; atomic<T> as T.
+//
+//@ pred mty(w, h) := w.module.Types[int(h)].Inner
+//@ func (*Writer).typeSize
+//@   mode bv
+//@   tags C07 C04
+//@   requires [module] w != nil && w.module != nil
+//@   ensures [scalar] int(handle) < len(w.module.Types) && is(mty(w, handle), ir.ScalarType) ==> result == uint32(mty(w, handle).(ir.ScalarType).Width)
+//@   ensures [vector] int(handle) < len(w.module.Types) && is(mty(w, handle), ir.VectorType) ==> result == uint32(mty(w, handle).(ir.VectorType).Size) * uint32(mty(w, handle).(ir.VectorType).Scalar.Width)
+//@   ensures [mat-rows2] int(handle) < len(w.module.Types) && is(mty(w, handle), ir.MatrixType) && mty(w, handle).(ir.MatrixType).Rows == ir.Vec2 && mty(w, handle).(ir.MatrixType).Scalar.Width != 0 ==> result == uint32(mty(w, handle).(ir.MatrixType).Columns) * 2 * uint32(mty(w, handle).(ir.MatrixType).Scalar.Width)
+//@   ensures [mat-rows34] int(handle) < len(w.module.Types) && is(mty(w, handle), ir.MatrixType) && (mty(w, handle).(ir.MatrixType).Rows == ir.Vec3 || mty(w, handle).(ir.MatrixType).Rows == ir.Vec4) && mty(w, handle).(ir.MatrixType).Scalar.Width != 0 ==> result == uint32(mty(w, handle).(ir.MatrixType).Columns) * 4 * uint32(mty(w, handle).(ir.MatrixType).Scalar.Width)
+//@   ensures [array] int(handle) < len(w.module.Types) && is(mty(w, handle), ir.ArrayType) && mty(w, handle).(ir.ArrayType).Size.Constant != nil && mty(w, handle).(ir.ArrayType).Stride != 0 ==> result == mty(w, handle).(ir.ArrayType).Stride * *mty(w, handle).(ir.ArrayType).Size.Constant
+//@   ensures [struct] int(handle) < len(w.module.Types) && is(mty(w, handle), ir.StructType) ==> result == mty(w, handle).(ir.StructType).Span
+//@   ensures [atomic] int(handle) < len(w.module.Types) && is(mty(w, handle), ir.AtomicType) ==> result == uint32(mty(w, handle).(ir.AtomicType).Scalar.Width)
+//@   pure
